@@ -18,7 +18,7 @@ decided.
 
 import ast
 
-from ..astutil import Env, chain, src, walk, const, stmts, strip_not, reaching_value, is_none_test
+from ..astutil import kwarg, Env, chain, src, walk, const, stmts, strip_not, reaching_value, is_none_test
 from ..model import Unrecognised
 from .c13 import name_is
 
@@ -243,7 +243,7 @@ def literal_and_json(model, R):
         ok = False
         if ifs:
             a = ifs[0].body[0]
-            ok = (isinstance(a, ast.Assign) and src(a.targets[0]) == "kwargs['_serialized']" and src(a.value) == 'self.todict(ignore_lattice=None)'
+            ok = (isinstance(a, ast.Assign) and src(a.targets[0]) == "kwargs['_serialized']" and src(a.value) in ('self.todict(ignore_lattice=None)', 'self.todict(None)')
                   and src(ifs[0].test) == 'frmat is formats.PythonLiteral')
         R.check(ok, 'AGREEMENT', f, ifs[0] if ifs else f.node, f'{f.name}: python-literal output carries todict (lattice only if already computed)',
                 "kwargs['_serialized'] = self.todict(ignore_lattice=None)", src(ifs[0])[:120] if ifs else 'not passed')
@@ -255,7 +255,8 @@ def literal_and_json(model, R):
         c = calls[0]
         a0 = env.expand(c.args[0])
         kws = {k.arg: src(k.value) for k in c.keywords}
-        ok = (src(a0) == f'self.todict(ignore_lattice={tj.params[5]})' and src(c.args[1]) == tj.params[1]
+        b0 = (model.bind(tj, a0) or {}) if isinstance(a0, ast.Call) and chain(a0.func) == ['self', 'todict'] else None
+        ok = (b0 is not None and {k: src(v) for k, v in b0.items()} == {'ignore_lattice': tj.params[5]} and src(c.args[1]) == tj.params[1]
               and kws.get('encoding') == 'encoding' and kws.get('indent') == 'indent' and kws.get('sort_keys') == 'sort_keys')
     R.check(ok, 'AGREEMENT', tj, calls[0] if calls else tj.node, 'tojson dumps todict with the caller\'s flags',
             'tools.dump_json(self.todict(ignore_lattice=ignore_lattice), path_or_fileobj, encoding=..., indent=..., sort_keys=...)', src(calls[0])[:160] if calls else '')
@@ -264,7 +265,8 @@ def literal_and_json(model, R):
     r = [env.expand(n.value) for n in walk(fj.body) if isinstance(n, ast.Return)]
     ok = False
     if len(r) == 1 and isinstance(r[0], ast.Call) and chain(r[0].func) == [fj.params[0], 'fromdict']:
-        kws = {k.arg: src(k.value) for k in r[0].keywords}
+        bound = model.bind(fj, r[0]) or {}
+        kws = {k: src(v) for k, v in bound.items() if k != 'd'}
         a0 = r[0].args[0]
         ok = (isinstance(a0, ast.Call) and (chain(a0.func) or [''])[-1] == 'load_json' and src(a0.args[0]) == fj.params[1]
               and kws == {'ignore_lattice': 'ignore_lattice', 'require_lattice': 'require_lattice', 'raw': 'raw'})
@@ -358,13 +360,14 @@ def pickle_rules(model, R):
         calls = [n for n in walk(ls.body) if isinstance(n, ast.Call) and (chain(n.func) or [''])[-1] == '_fromlist']
         if len(calls) == 1:
             c = calls[0]
-            kws = {k.arg: src(k.value) for k in c.keywords}
-            ok = [src(x) for x in c.args[:2]] == [a, b] and kws.get('inst') == ls.params[0] and (len(c.args) < 3 or const(c.args[2], 'x') is False)
+            inst = kwarg(c, 'inst', 3)
+            flag = kwarg(c, 'unordered', 2)
+            ok = [src(x) for x in c.args[:2]] == [a, b] and inst is not None and src(inst) == ls.params[0] and (flag is None or const(flag, 'x') is False)
     if not ok_state and elts and not linked:
         R.unknown('PICKLE', lg, lg.node, 'Lattice pickle state', src(r[0]))
     elif ok_state:
         R.check(ok, 'PICKLE', ls, ls.node, 'Lattice: __setstate__ rebuilds this instance from (context, stored list) in stored order',
-                'context, lattice = state; self._fromlist(context, lattice, False, inst=self)', found)
+                'context, lattice = state; self._fromlist(context, lattice, False, self)', found)
         fl = model.func('lattices.Data._fromlist')
         guard = [s for s in fl.body if isinstance(s, ast.If) and src(s.test) == 'inst is None']
         okg = bool(guard) and src(guard[0].body[0]) == f'inst = object.__new__({fl.params[0]})' and const(fl.defaults().get('inst'), 'x') is None
